@@ -192,12 +192,16 @@ PROPS = {
     },
     "C13": {
         "level": "exploration", "sim": True,
-        "technique": "property-based testing: grammar-generated malformed hook responses + native go fuzzing; oracle = no panic and no child write on a rejected response",
-        "level_text": "generated near-valid and hostile hook responses are fed through the real webhook executor into real syncs against the simulator; the oracle is crash-freedom plus absence of child writes after a rejected response",
-        "rule": "work in progress: currently the hand-written regression cases for repaired panics",
+        "technique": "property-based testing (rapid) with a response grammar: a valid hook answer with one field replaced by every JSON type / boundary value, fields removed, raw non-JSON bodies, odd status codes (+ native go fuzzing of raw bodies in the thorough tier); oracle = no panic on the sync goroutine or any goroutine it spawns, and no child write when the response is rejected",
+        "level_text": "malformed answers are served by the in-memory webhook through the real executor (strict and loose decoding) into real syncs; a panic anywhere in the sync (recovered on the sync goroutine, process death otherwise) is the violation",
+        "rule": ("rapid-generated cases: config (composite incl. rolling and generateSelector, decorator; strict/loose; customize hook) x attacked hook (sync, finalize, customize) x mutation (field := hostile value over 23 values x ~25 paths, field deleted, 15 raw bodies, 10 status codes); "
+                 "non-trivial = the served body/status differs from the valid answer; classes accepted/rejected are counted separately; distinct = distinct choice sequences"),
         "jobs": [
-            {"name": "c13-regress", "pkg": COMPOSITE, "tests": ["TestVerifC13Regressions"]},
+            {"name": "c13-regress", "pkg": COMPOSITE, "tests": ["TestVerifC13Regressions", "TestVerifC13RegressionsNull"]},
+            {"name": "c13-composite", "pkg": COMPOSITE, "tests": ["TestVerifC13Composite"],
+             "checks": {"quick": 6000, "thorough": 400000}, "shards": {"quick": 8, "thorough": 10}},
+            {"name": "c13-decorator", "pkg": DECORATOR, "tests": ["TestVerifC13Decorator"],
+             "checks": {"quick": 3000, "thorough": 150000}, "shards": {"quick": 4, "thorough": 4}},
         ],
-        "disabled": "generated check for C13 not built yet; only regression cases exist",
     },
 }
